@@ -71,6 +71,9 @@ func (t *websocketTransport) Send(ctx context.Context, e envelope) error {
 		// Effectively fails all pending write operations before returning.
 		// Note that this makes the encoder to be in a permanent error state.
 		_ = t.conn.SetWriteDeadline(time.Now())
+		// The websocket connection only applies its write deadline before the
+		// next write, so also interrupt a write that is already blocked.
+		_ = t.conn.UnderlyingConn().SetWriteDeadline(time.Now())
 		<-errChan
 		return fmt.Errorf("ws transport: send: %w", ctx.Err())
 	case err := <-errChan:
